@@ -38,17 +38,13 @@ func (r *Run) releasedTo(c int64, pre, post obs, ownKey int64) string {
 	if contains(post.free, c) {
 		return "-"
 	}
-	for _, k := range pre.reqs {
-		if k == ownKey || contains(post.reqs, k) {
-			continue
-		}
-		for _, g := range r.callers {
-			if g.state == stYield && (g.point == "acq.wait" || g.point == "acq.giveup") && g.key == k && pool.VerifC27ChanLen(g.ch) == 1 {
-				if _, had := r.inbox[k]; !had {
-					r.inbox[k] = c
-					r.transfers++
-					return fmt.Sprintf("%d", k-1)
-				}
+	// a channel that just received a connection (also the channel of a waiter that has left meanwhile)
+	for k, ch := range r.chans {
+		if pool.VerifC27ChanLen(ch) == 1 {
+			if _, had := r.inbox[k]; !had {
+				r.inbox[k] = c
+				r.transfers++
+				return fmt.Sprintf("%d", k-1)
 			}
 		}
 	}
@@ -95,13 +91,15 @@ func (r *Run) Step(ch choice, pre obs) (string, bool) {
 	}
 	post := func() obs { return r.observeC(false) }
 	switch ch.act {
-	case "st", "en", "ck":
+	case "pk":
+		tok = "" // the scheduling point between the registration and the select: no model action
+	case "st", "en", "ck", "mk":
 		tok = fmt.Sprintf("%s:%d", ch.act, i)
 		if ch.act == "ck" && strings.HasPrefix(newPC, "U") {
 			handout(g.conn)
 		}
-		if ch.act == "en" && strings.HasPrefix(newPC, "N") && int(g.conn) != len(r.conns) {
-			r.fail("harness-id-mismatch", fmt.Sprintf("pool connection id %d but %d fake connections exist", g.conn, len(r.conns)))
+		if (ch.act == "en" || ch.act == "mk") && strings.HasPrefix(newPC, "N") && int(g.conn) != len(r.conns) {
+			r.fail("harness-id-mismatch", fmt.Sprintf("the connection being created is fake connection %d but %d fake connections exist", g.conn, len(r.conns)))
 		}
 	case "cw":
 		switch {
@@ -141,7 +139,6 @@ func (r *Run) Step(ch choice, pre obs) (string, bool) {
 			if !hadPolled {
 				r.fail("harness-inbox-bookkeeping", fmt.Sprintf("%s: caller %d left the wait through its channel but no transfer was recorded", ch, i))
 			}
-			delete(r.inbox, preKey)
 			if strings.HasPrefix(newPC, "U") {
 				if g.conn != polled && hadPolled {
 					r.fail("wrong-conn", fmt.Sprintf("caller %d received connection %d but %d was transferred to its key", i, g.conn-1, polled-1))
@@ -150,9 +147,6 @@ func (r *Run) Step(ch choice, pre obs) (string, bool) {
 			}
 		}
 	case "gu":
-		if hadPolled {
-			delete(r.inbox, preKey)
-		}
 		k := "-"
 		switch {
 		case strings.HasPrefix(newPC, "U"):
@@ -294,8 +288,12 @@ func Execute(cfg Config, expectBg bool, choose Chooser) Outcome {
 			break
 		}
 		post := r.observe()
-		out.Trace = append(out.Trace, tok)
-		out.Sums = append(out.Sums, post.summary)
+		if tok != "" {
+			out.Trace = append(out.Trace, tok)
+			out.Sums = append(out.Sums, post.summary)
+		} else {
+			tok = ch.String() // a scheduling step without a model action (still monitored)
+		}
 		r.monitor(post, tok)
 		r.monitorServed(post, tok)
 		pre = post
